@@ -28,7 +28,7 @@ func smallAlphabet() []string {
 		}
 		out = append(out, "del "+hx.Hex(k))
 	}
-	return append(out, "commit", "reopen", "dbcommit", "snap")
+	return append(out, "commit", "reopen", "dbcommit", "snap", "fork")
 }
 
 // gen produces one structured, boundary-biased history over a key pool.
@@ -174,6 +174,9 @@ func (g *gen) op() string {
 	case c < 95:
 		if g.nsnaps < 6 {
 			g.nsnaps++
+			if r.Bool() {
+				return "fork"
+			}
 			return "snap"
 		}
 		return "badopen " + hx.Hex(r.Bytes(32))
@@ -216,15 +219,15 @@ func boundaryHistories(r *hx.Rng, thorough bool) [][]string {
 		return v
 	}
 	tail := func(ks ...[]byte) []string {
-		t := []string{"hash", "shape", "snap", "reopen", "shape"}
+		t := []string{"hash", "shape", "snap", "fork", "reopen", "shape"}
 		for _, k := range ks {
 			t = append(t, "get "+hx.Hex(k))
 		}
 		t = append(t, "dbcommit", "shape")
 		for _, k := range ks {
-			t = append(t, "get "+hx.Hex(k), "sget 0 "+hx.Hex(k))
+			t = append(t, "get "+hx.Hex(k), "sget 0 "+hx.Hex(k), "del "+hx.Hex(k), "sget 1 "+hx.Hex(k))
 		}
-		return append(t, "iter -", "shash 0", "hash")
+		return append(t, "iter -", "shash 0", "shash 1", "sshape 1", "hash")
 	}
 	// (a) leaf / branch encodings around 32 bytes
 	for klen := 1; klen <= 4; klen++ {
